@@ -458,13 +458,16 @@ def process_stub_cached_sample(ck, rng):
                 f"base draws {[q[0] for q in base.drawn]}, values {p1.tolist()} / {p2.tolist()}")
 
 
-def process_stub_iform(ck, rng, rs=None):
+def process_stub_iform(ck, rng, rs=None, given_case=None):
     """IFORM over the stub model: every Monte-Carlo step must be driven by the model's random_state
     (the recording base model sees the random_state of each draw), and two runs must agree bit for bit."""
     virocon, _, _, _ = V()
-    case = make_stub_case(rng, n_dim=2, triple="stub")
-    drawn_rs = int(rng.integers(0, 2 ** 31))
-    case.update(gen="stub-iform", rs=drawn_rs if rs is None else rs, alpha=float(rng.choice([0.05, 0.01])), n_points=int(rng.choice([4, 6])))
+    if given_case is not None:
+        case = dict(given_case)
+    else:
+        case = make_stub_case(rng, n_dim=2, triple="stub")
+        drawn_rs = int(rng.integers(0, 2 ** 31))
+        case.update(gen="stub-iform", rs=drawn_rs if rs is None else rs, alpha=float(rng.choice([0.05, 0.01])), n_points=int(rng.choice([4, 6])))
     ck.count("B_stub_iform_random_state=" + ("0" if case["rs"] == 0 else "int"))
     base, t, k, cube, _ = build_stub(case)
     ck.case(case, nontrivial=True, sample=False)
@@ -688,16 +691,20 @@ def process_sizes(ck, case):
         ck.count("divergence_with_oracle_failure")
 
 
-def process_sizes_iform(ck, rng):
+def process_sizes_iform(ck, rng, given_case=None):
     """which sample sizes / random_state / conditioning values IFORMContour requests from a TransformedModel (both
     samplers replaced by recorders): marginal step with the model's precision_factor, conditional steps with the
     default precision_factor 1.0 (the code does not forward it there), all with the model's random_state"""
     virocon, _, _, _ = V()
-    case = make_stub_case(rng, n_dim=2, triple="stub")
-    alpha = float(rng.choice([1e-2, 1e-3, 1e-4, 1e-6]))
-    pf = float(rng.choice([0.1, 0.5, 1.0]))
-    rs = [0, int(rng.integers(1, 2 ** 31)), "generator"][int(rng.integers(0, 3))]
-    case.update(part="F-iform", gen="sizes-iform", alpha=alpha, pf=pf, rs=rs, n_points=int(rng.choice([5, 8])))
+    if given_case is not None:
+        case = dict(given_case)
+        alpha, pf, rs = case["alpha"], case["pf"], case["rs"]
+    else:
+        case = make_stub_case(rng, n_dim=2, triple="stub")
+        alpha = float(rng.choice([1e-2, 1e-3, 1e-4, 1e-6]))
+        pf = float(rng.choice([0.1, 0.5, 1.0]))
+        rs = [0, int(rng.integers(1, 2 ** 31)), "generator"][int(rng.integers(0, 3))]
+        case.update(part="F-iform", gen="sizes-iform", alpha=alpha, pf=pf, rs=rs, n_points=int(rng.choice([5, 8])))
     _, vt, jm, _ = V()
     base = StubBase(2, *case["base"])
     T, I, J = stub_triple(2, case["k"])
@@ -1432,7 +1439,11 @@ def corpus_cases():
 
 def dispatch(ck, case):
     part = case["part"]
-    if part == "B":
+    if part == "B" and case.get("gen") == "stub-iform":
+        process_stub_iform(ck, None, given_case=case)
+    elif part == "F-iform":
+        process_sizes_iform(ck, None, given_case=case)
+    elif part == "B":
         process_stub(ck, case)
     elif part == "D":
         process_replay(ck, case)
